@@ -3,6 +3,7 @@ package main
 // Evaluation of contract expressions against a symbolic state.
 
 import (
+	"os"
 	"fmt"
 	"go/constant"
 	"go/token"
@@ -29,6 +30,8 @@ type SpecEnv struct {
 	old     *State
 	pre     *State
 	names   map[string]Value
+	oldNames map[string]Value // names as bound in the old() state (callback units: captured variables at entry)
+	preNames map[string]Value // names as bound in the pre() state
 	fr      *Frame
 	pkg     *types.Package
 	results []Value
@@ -108,6 +111,21 @@ func (e *SpecEnv) bind(name string, v Value) *SpecEnv {
 		n.names[k] = vv
 	}
 	n.names[name] = v
+	// bound variables are the same in every state
+	if e.oldNames != nil {
+		n.oldNames = make(map[string]Value, len(e.oldNames)+1)
+		for k, vv := range e.oldNames {
+			n.oldNames[k] = vv
+		}
+		n.oldNames[name] = v
+	}
+	if e.preNames != nil {
+		n.preNames = make(map[string]Value, len(e.preNames)+1)
+		for k, vv := range e.preNames {
+			n.preNames[k] = vv
+		}
+		n.preNames[name] = v
+	}
 	return &n
 }
 
@@ -553,7 +571,13 @@ func (e *SpecEnv) binary(n *SBin) Value {
 		}()
 		return boolV(mkImp(ant, cons))
 	case "<==>":
-		return boolV(mkEq(e.evalBool(n.X), e.evalBool(n.Y)))
+		a, b := e.evalBool(n.X), e.evalBool(n.Y)
+		if strings.Contains(a, "(exists ") || strings.Contains(a, "(forall ") || strings.Contains(b, "(exists ") || strings.Contains(b, "(forall ") {
+			// a Boolean equality with a quantified side defeats the solvers' quantifier
+			// handling (z3 does not derive the universal from `(not r)`, `(= r (exists ..))`)
+			return boolV(mkAnd(mkImp(a, b), mkImp(b, a)))
+		}
+		return boolV(mkEq(a, b))
 	}
 	a := e.eval(n.X)
 	b := e.eval(n.Y)
@@ -691,12 +715,13 @@ func (e *SpecEnv) specEq(a, b Value) string {
 func (e *SpecEnv) quant(n *SQuant) Value {
 	x := e.x
 	env := e
-	var binders []string
+	var binders, boundNames []string
 	for _, v := range n.Vars {
 		sort, kind, gt := e.sortOfName(v.Type)
 		// unique bound name to avoid capture
 		x.d.n++
 		bn := fmt.Sprintf("%s!q%d", v.Name, x.d.n)
+		boundNames = append(boundNames, bn)
 		binders = append(binders, "("+bn+" "+sort+")")
 		var val Value
 		if gt != nil {
@@ -720,6 +745,9 @@ func (e *SpecEnv) quant(n *SQuant) Value {
 		return boolV(body)
 	}
 	qt := "(" + q + " (" + strings.Join(binders, " ") + ") " + body + ")"
+	if pats := autoPatterns(body, boundNames); pats != "" && os.Getenv("GOVC_NOPAT") == "" {
+		qt = "(" + q + " (" + strings.Join(binders, " ") + ") (! " + body + pats + "))"
+	}
 	if !n.Forall && len(n.Vars) == 1 {
 		// (exists k. P(k)) is equivalent to itself or-ed with instances at
 		// candidate witnesses: integer locals live in the frame.
@@ -749,12 +777,19 @@ func (e *SpecEnv) call(n *SCall) Value {
 		}
 		oe := e.with(e.old)
 		oe.entry = true
+		if e.oldNames != nil {
+			oe.names = e.oldNames
+		}
 		return oe.eval(n.Args[0])
 	case "pre":
 		if e.pre == nil {
-			specFail("pre() only inside loop invariants")
+			specFail("pre() only inside loop and iteration invariants")
 		}
-		return e.with(e.pre).eval(n.Args[0])
+		pe := e.with(e.pre)
+		if e.preNames != nil {
+			pe.names = e.preNames
+		}
+		return pe.eval(n.Args[0])
 	case "len":
 		return intV(x.lenOf(e.st, e.eval(n.Args[0])))
 	case "cap":
